@@ -1028,8 +1028,13 @@ pub fn audit(
           && op == OutPoint::null()
         {
           feats.insert("lost");
-          if insc.lost_at_creation.contains(&idx_in_model) && !Charm::Lost.is_set(o.charms) {
-            e.fail("C03", "lost/charm-missing-at-creation", format!("inscription {} was lost in its creation block but lacks the lost charm", r.id));
+          // "reported as lost" = what Index::inscription_info reports: the stored charm, or the lost-sats
+          // pseudo-output as location (ord adds the charm from the location when it answers queries; the stored
+          // bit is only set when the reveal transaction itself loses the sat). An inscription that is revealed
+          // and then moved into unclaimed fees inside its creation block has the location but not the stored bit.
+          let reported_lost = Charm::Lost.is_set(o.charms) || got.map(|(op, _)| op == OutPoint::null()).unwrap_or(false);
+          if insc.lost_at_creation.contains(&idx_in_model) && !reported_lost {
+            e.fail("C03", "lost/not-reported-as-lost", format!("inscription {} was lost in its creation block but is neither charmed lost nor located at the lost-sats pseudo-output", r.id));
           }
         }
       }
